@@ -309,3 +309,21 @@ Proof.
   repeat split; auto;
     apply ideal_mac_fixes_key in H as (A & B & C); auto.
 Qed.
+
+(* if the client accepts with ideal crypto, the MAC it received determines the
+   client's own token signature: the server's proof was built from that signature *)
+Lemma ideal_client_possession ld ra frames sk sent :
+  client_run ideal ld ra frames = {| c_out := CAccept sk; c_sent := sent |} ->
+  exists cid tok sig sid rb mac,
+    ld = Some (cid, tok, sig) /\
+    server_proof ideal (i_kdf sig tok) cid ra sid rb (reader_of frames) /\
+    mac = i_mac (i_kdf sig tok) (mac_T cid sid ra rb) /\
+    forall sig' tok' m', mac = i_mac (i_kdf sig' tok') m' ->
+                         sig' = sig /\ tok' = tok /\ m' = mac_T cid sid ra rb.
+Proof.
+  intro H. apply client_accepts_iff in H.
+  destruct H as (cid & tok & sig & sid & rb & Hld & Hsp & _).
+  exists cid, tok, sig, sid, rb, (i_mac (i_kdf sig tok) (mac_T cid sid ra rb)).
+  simpl in Hsp. repeat split; auto;
+    apply ideal_mac_fixes_signature in H as (A & B & C); auto.
+Qed.
